@@ -146,6 +146,8 @@ def run(ctx):
         qmag = core.sf(D(ref.magnitude) * ratio * rmid)
         if not (1e-250 < qmag < 1e250):
             continue
+        if rng.random() < 0.15:
+            qmag = Decimal(repr(qmag))       # Decimal magnitudes go through the same formulas
         q = Q(qmag, qu)
         ctx.distinct((fname, rname, str(qu), bucket), x != 0)
         case = {"family": fname, "reference": rname, "quantity": repr(q), "level": x, "k": k}
@@ -167,7 +169,7 @@ def run(ctx):
             continue
         ctx.count(f"levels_checked/{fname}/{'root-power' if k == 2 else 'power'}")
         # level -> quantity
-        xl = rng.choice([x, round(x), int(x)])
+        xl = rng.choice([x, round(x), int(x), Decimal(repr(round(x, 3)))])
         want_q = D(ref.magnitude) * D(oracle.prefix_value(ref.unit.prefix)) * (D(xl) * D(prefix) / Decimal(k) * base.ln()).exp()
         state["expect"] = {"kind": "quantify", "want": want_q, "dimension": ref.unit.dimension, "desc": f"({xl!r} {fname}[{rname}]).quantify()", "case": case}
         try:
@@ -196,14 +198,14 @@ def run(ctx):
             e1, e2 = (lv == ap), (ap == lv)
             if not (e1 and e2):
                 ctx.violation("C18:level-not-equal-to-its-quantity", f"{lv!r} == approximately({q!r}) is {e1}, reverse {e2}", case)
-            far = m.approximately(Q(q.magnitude * 1.5, q.unit), 1e-6)
+            far = m.approximately(Q(q.magnitude * 3 / 2, q.unit), 1e-6)
             if (lv == far) or (far == lv):
                 ctx.violation("C18:level-equal-to-a-different-quantity", f"{lv!r} == approximately(1.5*q)", case)
         except Exception as e:
             ctx.violation(f"C18:equality:raised-{type(e).__name__}", f"{lv!r} vs {q!r}: {e}", case)
         # monotone: a strictly larger quantity has a strictly larger level
         if i % 3 == 0:
-            chain = sorted({qmag * f for f in (0.5, 0.999, 1.0, 1.001, 2.0, 10.0)})
+            chain = sorted({float(qmag) * f for f in (0.5, 0.999, 1.0, 1.001, 2.0, 10.0)})
             try:
                 lvls = [Q(v, qu).level(lu).magnitude for v in chain]
                 ctx.count("monotone_chains")
